@@ -430,15 +430,20 @@ def v9(ctx):
               and not any(k == "store" for wid, v in crate.field_writers(MS, "diseq_constraints").items() if wid == b.id for (_, _, k, _) in v)]
     C.need("constraint adder (mutably borrows MultiState.diseq_constraints)", [b.id for b in adders])
     n = 0
+    pol = mir.default_inline_policy(crate)
     for ad in adders:
-        for caller in crate.fns():
-            for c in C.calls_to(crate, caller, {ad.id}):
+        for caller0 in crate.fns():
+            # a private single-use helper (the per-e-node part of the loop extracted) is looked at inside its caller
+            if caller0.id in pol and caller0.id != ad.id:
+                continue
+            caller = mir.inline_view(crate, caller0, keep=(ad.id,))
+            for c in [c_ for c_ in caller.all_calls() if c_.callee and c_.callee.target == ad.id]:
                 n += 1
                 r = c.body.role_of_operand(c.args[0])
                 ok = role_mentions_call(r, "all_slot_occurrences") and role_mentions_call(r, "enodes_applied")
                 if not ok:
                     # the set may be filled element by element: fall back to (flow-insensitive) value dependence
-                    at = crate.deps(crate.root_of(c.body)).atoms_of_operand(c.body, c.args[0])
+                    at = crate.deps(crate.root_of(c.body) if c.body.id in crate.bodies and crate.bodies[c.body.id] is c.body else caller0).atoms_of_operand(c.body, c.args[0]) if (c.body.id in crate.bodies and crate.bodies[c.body.id] is c.body) else set()
                     ok = bool(mir.atoms_calls(at, "all_slot_occurrences")) and bool(mir.atoms_calls(at, "enodes_applied"))
                 ctx.check(ok, "constraint-covers-all-occurrences:" + C.fkey(caller), "the disjointness constraint is built from all_slot_occurrences() of each e-node handed out by enodes_applied",
                           "%s builds the disjointness constraint from %s instead of all slot occurrences of the e-node: redundant / bound slots get fresh, flexible names from enodes_applied and only this constraint keeps two different ones from being unified — the matcher then reports a substitution whose instance is not in the e-graph" % (C.short(caller.id), role_str(r)[:100]),
